@@ -462,11 +462,43 @@ func (c *Ctx) Finish() int {
 	}
 	samples := c.Samples
 	if len(samples) == 0 {
-		for _, jr := range c.Results {
-			if jr.Res != nil && len(jr.Res.Samples) > 0 && len(samples) < 6 {
-				s := jr.Res.Samples[0]
-				samples = append(samples, map[string]any{"harness": jr.Job.Entry, "args": jr.Job.Args, "instance": jr.Job.Label,
-					"solver_model": s.Model, "observations": s.Obs, "witnesses": s.Reached})
+		// a few explored paths from different instances, preferring ones with a non-trivial model
+		seenInst := map[string]bool{}
+		for pass := 0; pass < 2 && len(samples) < 6; pass++ {
+			for _, jr := range c.Results {
+				if jr.Res == nil || len(samples) >= 6 || seenInst[jr.Job.Label] {
+					continue
+				}
+				for _, sm := range jr.Res.Samples {
+					if pass == 0 && len(sm.Model) < 2 {
+						continue
+					}
+					smp := map[string]any{"harness": jr.Job.Entry, "args": jr.Job.Args, "instance": jr.Job.Label,
+						"solver_model": sm.Model, "observations": sm.Obs, "witnesses": sm.Reached}
+					if len(sm.Strs) > 0 {
+						in := map[string]string{}
+						for k, rs := range sm.Strs {
+							var b strings.Builder
+							for _, r := range rs {
+								b.WriteRune(rune(r))
+							}
+							in[k] = fmt.Sprintf("%q", b.String())
+						}
+						smp["symbolic_strings_under_model"] = in
+					}
+					if g, ok := jr.Job.Meta["grammar"].(string); ok {
+						if i := strings.Index(g, "}\n\n"); i >= 0 {
+							g = g[i+3:]
+						}
+						smp["grammar"] = trunc(g, 600)
+					}
+					if jr.Res.ExampleQuery != "" {
+						smp["a_discharged_query_of_this_instance"] = jr.Res.ExampleQuery
+					}
+					samples = append(samples, smp)
+					seenInst[jr.Job.Label] = true
+					break
+				}
 			}
 		}
 	}
